@@ -7,19 +7,30 @@
    which of the two the code currently is; the correspondence check runs that variant.
    mk is the leaf that _interpolate's return value becomes: TF (a Python float / numpy.float64) or
    TA (a 0-d numpy array, which the float walk does not find); Gen.spline_returns_float selects it
-   for the spline in the binary64 instance. *)
-From Coq Require Import List String Bool ZArith QArith Permutation.
-From PAFC20 Require Import Gen Model Proofs1 Proofs2 Proofs3 Proofs4 Witness.
+   for the spline in the binary64 instance.
+
+   The generic theorems are parametric in the number type V, its comparisons and a carrier `good : V -> bool`
+   on which `<=` is a total preorder whose equivalence is `==` and which is closed under `==` (order_ok_on); all
+   abscissae lie in the carrier; the query value needs no hypothesis (whatever == an abscissa is in the carrier).  Instances: Z and Q with carrier =
+   everything (C20_order_laws_Z, C20_order_laws_Q) and binary64 with carrier = the non-NaN floats
+   (C20_order_laws_f64, proved from Coq.Floats.FloatAxioms); the `_f64` theorems are the statements for the
+   binary64 model that the correspondence check runs against the code (PrimFloat.leb / PrimFloat.eqb), with no
+   hypothesis on the comparisons beyond `no NaN among the abscissae` (a NaN query value is covered: it equals no
+   abscissa, so the query is off-node in every order). *)
+From Coq Require Import List String Bool ZArith QArith Permutation Floats.PrimFloat.
+From PAFCommon Require Import PyFloat.
+From PAFC20 Require Import Gen Model Proofs1 Proofs2 Proofs3 Proofs4 Proofs5 Witness.
 Import ListNotations.
 Open Scope list_scope.
 
 (* a query at the abscissa of an instance returns that very instance *)
 Theorem C20_known_point :
-  forall (V : Type) (leb eqb : V -> V -> bool) (ofZ : Z -> V) (interp : list V -> list V -> V -> option V) (mk : V -> tree V),
-  order_ok leb eqb ->
+  forall (V : Type) (leb eqb : V -> V -> bool) (ofZ : Z -> V) (interp : list V -> list V -> V -> option V) (mk : V -> tree V)
+         (good : V -> bool),
+  order_ok_on good leb eqb ->
   forall (assign : bool) (insts : list (tree V)) (q : list string) (qv : tree V) (v : V) (ks : list V)
          (i : nat) (inst : tree V) (k : V),
-  num_of ofZ qv = Some v -> keys_of ofZ q insts = Some ks -> distinct eqb ks ->
+  num_of ofZ qv = Some v -> keys_of ofZ q insts = Some ks -> allgood good ks -> distinct eqb ks ->
   nth_error insts i = Some inst -> abscissa ofZ q inst = Some k -> eqb k v = true ->
   interp_at leb eqb ofZ interp mk assign insts q qv = OSame i.
 Proof. exact @known_point. Qed.
@@ -37,12 +48,13 @@ Proof. exact @same_sound. Qed.
 (* otherwise every float leaf found in the first instance is interp(x, y, value) with x the sorted
    abscissae and y the values of that leaf in the instances holding those abscissae *)
 Theorem C20_per_leaf :
-  forall (V : Type) (leb eqb : V -> V -> bool) (ofZ : Z -> V) (interp : list V -> list V -> V -> option V) (mk : V -> tree V),
-  order_ok leb eqb ->
+  forall (V : Type) (leb eqb : V -> V -> bool) (ofZ : Z -> V) (interp : list V -> list V -> V -> option V) (mk : V -> tree V)
+         (good : V -> bool),
+  order_ok_on good leb eqb ->
   forall (assign : bool) (template : tree V) (rest : list (tree V)) (q : list string) (qv r : tree V),
   wf template = true -> is_obj template ->
   interp_at leb eqb ofZ interp mk assign (template :: rest) q qv = ONew r ->
-  forall ks, keys_of ofZ q (template :: rest) = Some ks -> distinct eqb ks ->
+  forall ks, keys_of ofZ q (template :: rest) = Some ks -> allgood good ks -> distinct eqb ks ->
   exists v, num_of ofZ qv = Some v /\
     forall p, In p (fpaths template) -> (assign = true -> p <> qkeys q) ->
       exists y ys, get p r = Some (mk y) /\ interp (sort_keys leb ks) ys v = Some y /\
@@ -86,10 +98,11 @@ Proof. exact leaf_code. Qed.
 (* a query on a series of same-shape instances with distinct abscissae never raises, provided the
    external routine accepts those abscissae *)
 Theorem C20_defined :
-  forall (V : Type) (leb eqb : V -> V -> bool) (ofZ : Z -> V) (interp : list V -> list V -> V -> option V) (mk : V -> tree V),
-  order_ok leb eqb ->
+  forall (V : Type) (leb eqb : V -> V -> bool) (ofZ : Z -> V) (interp : list V -> list V -> V -> option V) (mk : V -> tree V)
+         (good : V -> bool),
+  order_ok_on good leb eqb ->
   forall (assign : bool) (insts : list (tree V)) (q : list string) (qv : tree V) (ks : list V) (F : list path) (v : V),
-  insts <> [] -> keys_of ofZ q insts = Some ks -> distinct eqb ks -> same_shape F insts ->
+  insts <> [] -> keys_of ofZ q insts = Some ks -> allgood good ks -> distinct eqb ks -> same_shape F insts ->
   num_of ofZ qv = Some v ->
   (forall ys, List.length ys = List.length ks -> exists y, interp (sort_keys leb ks) ys v = Some y) ->
   interp_at leb eqb ofZ interp mk assign insts q qv <> OErr.
@@ -98,10 +111,11 @@ Proof. exact @defined. Qed.
 (* the order in which the series is supplied does not matter: same instance at a known point, same
    interpolated leaves otherwise, an error in one order iff in the other *)
 Theorem C20_order_free :
-  forall (V : Type) (leb eqb : V -> V -> bool) (ofZ : Z -> V) (interp : list V -> list V -> V -> option V) (mk : V -> tree V),
-  order_ok leb eqb ->
+  forall (V : Type) (leb eqb : V -> V -> bool) (ofZ : Z -> V) (interp : list V -> list V -> V -> option V) (mk : V -> tree V)
+         (good : V -> bool),
+  order_ok_on good leb eqb ->
   forall (assign : bool) (insts insts' : list (tree V)) (q : list string) (qv : tree V) (ks : list V) (F : list path),
-  Permutation insts insts' -> keys_of ofZ q insts = Some ks -> distinct eqb ks -> same_shape F insts ->
+  Permutation insts insts' -> keys_of ofZ q insts = Some ks -> allgood good ks -> distinct eqb ks -> same_shape F insts ->
   match interp_at leb eqb ofZ interp mk assign insts q qv, interp_at leb eqb ofZ interp mk assign insts' q qv with
   | OSame i, OSame j => nth_error insts' j = nth_error insts i /\ nth_error insts i <> None
   | ONew r, ONew r' => forall p, In p F -> get p r' = get p r
@@ -109,6 +123,128 @@ Theorem C20_order_free :
   | _, _ => False
   end.
 Proof. exact @order_free. Qed.
+
+
+(* ---------- the order laws: theorems for Z, Q (every value) and binary64 (every non-NaN float) ---------- *)
+Theorem C20_order_laws_Z : order_ok_on everything Z.leb Z.eqb.
+Proof. exact Z_order_ok. Qed.
+
+Theorem C20_order_laws_Q : order_ok_on everything Qle_bool Qeq_bool.
+Proof. exact Q_order_ok. Qed.
+
+(* Python's <= and == on floats that are not NaN (infinities, -0.0 == 0.0 included): <= total and transitive,
+   antisymmetric up to ==, == an equivalence *)
+Theorem C20_order_laws_f64 : order_ok_on (fun x => negb (PrimFloat.is_nan x)) PrimFloat.leb PrimFloat.eqb.
+Proof. exact F_order_ok. Qed.
+
+(* ... and the NaN is why a carrier is needed *)
+Theorem C20_order_laws_f64_all_floats_refuted : ~ order_ok_on everything PrimFloat.leb PrimFloat.eqb.
+Proof. exact F_order_everything_refuted. Qed.
+
+(* ---------- binary64: the model the correspondence runs (comparisons = PrimFloat.leb / PrimFloat.eqb) ---------- *)
+(* known point: the abscissa k of instance i == the value (so +0.0 finds -0.0); the value needs no hypothesis *)
+Theorem C20_known_point_f64 :
+  forall (ofZ : Z -> float) (interp : list float -> list float -> float -> option float) (mk : float -> tree float)
+         (assign : bool) (insts : list (tree float)) (q : list string) (qv : tree float) (v : float) (ks : list float)
+         (i : nat) (inst : tree float) (k : float),
+  num_of ofZ qv = Some v -> keys_of ofZ q insts = Some ks -> no_nan ks -> distinct PrimFloat.eqb ks ->
+  nth_error insts i = Some inst -> abscissa ofZ q inst = Some k -> PrimFloat.eqb k v = true ->
+  interp_at PrimFloat.leb PrimFloat.eqb ofZ interp mk assign insts q qv = OSame i.
+Proof. exact known_point_F. Qed.
+
+Theorem C20_known_point_only_f64 :
+  forall (ofZ : Z -> float) (interp : list float -> list float -> float -> option float) (mk : float -> tree float)
+         (assign : bool) (insts : list (tree float)) (q : list string) (qv : tree float) (i : nat),
+  interp_at PrimFloat.leb PrimFloat.eqb ofZ interp mk assign insts q qv = OSame i ->
+  forall ks, keys_of ofZ q insts = Some ks -> distinct PrimFloat.eqb ks ->
+  exists v inst k, num_of ofZ qv = Some v /\ nth_error insts i = Some inst /\
+                   abscissa ofZ q inst = Some k /\ PrimFloat.eqb k v = true.
+Proof. exact (@same_sound float PrimFloat.leb PrimFloat.eqb). Qed.
+
+Theorem C20_per_leaf_f64 :
+  forall (ofZ : Z -> float) (interp : list float -> list float -> float -> option float) (mk : float -> tree float)
+         (assign : bool) (template : tree float) (rest : list (tree float)) (q : list string) (qv r : tree float),
+  wf template = true -> is_obj template ->
+  interp_at PrimFloat.leb PrimFloat.eqb ofZ interp mk assign (template :: rest) q qv = ONew r ->
+  forall ks, keys_of ofZ q (template :: rest) = Some ks -> no_nan ks -> distinct PrimFloat.eqb ks ->
+  exists v, num_of ofZ qv = Some v /\
+    forall p, In p (fpaths template) -> (assign = true -> p <> qkeys q) ->
+      exists y ys, get p r = Some (mk y) /\ interp (sort_keys PrimFloat.leb ks) ys v = Some y /\
+        Forall2 (fun x y' => exists inst, In inst (template :: rest) /\ abscissa ofZ q inst = Some x /\
+                                          value_at ofZ p inst = Some y') (sort_keys PrimFloat.leb ks) ys.
+Proof. exact per_leaf_F. Qed.
+
+(* the x handed to scipy: sorted by <=, a permutation of the abscissae, the same for every order of the series *)
+Theorem C20_sorted_abscissae_f64 :
+  forall ks : list float, no_nan ks ->
+  Sorted.StronglySorted (fun a b => PrimFloat.leb a b = true) (sort_keys PrimFloat.leb ks) /\
+  Permutation (sort_keys PrimFloat.leb ks) ks /\
+  (forall ks', distinct PrimFloat.eqb ks -> Permutation ks ks' -> sort_keys PrimFloat.leb ks = sort_keys PrimFloat.leb ks').
+Proof. exact sorted_abscissae_F. Qed.
+
+Theorem C20_sorted_abscissae_nan_refuted :
+  exists ks ks' : list float, distinct PrimFloat.eqb ks /\ Permutation ks ks' /\ sort_keys PrimFloat.leb ks <> sort_keys PrimFloat.leb ks'.
+Proof. exact sorted_abscissae_nan_refuted. Qed.
+
+Theorem C20_frame_f64 :
+  forall (ofZ : Z -> float) (interp : list float -> list float -> float -> option float) (mk : float -> tree float)
+         (assign : bool) (template : tree float) (rest : list (tree float)) (q : list string) (qv r : tree float),
+  wf template = true -> is_obj template ->
+  interp_at PrimFloat.leb PrimFloat.eqb ofZ interp mk assign (template :: rest) q qv = ONew r ->
+  forall p', (forall p, In p (fpaths template) -> comparable p p' = false) ->
+             (assign = true -> comparable (qkeys q) p' = false) ->
+             get p' r = get p' template.
+Proof. exact (@frame float PrimFloat.leb PrimFloat.eqb). Qed.
+
+Theorem C20_defined_f64 :
+  forall (ofZ : Z -> float) (interp : list float -> list float -> float -> option float) (mk : float -> tree float)
+         (assign : bool) (insts : list (tree float)) (q : list string) (qv : tree float) (ks : list float) (F : list path) (v : float),
+  insts <> [] -> keys_of ofZ q insts = Some ks -> no_nan ks -> distinct PrimFloat.eqb ks -> same_shape F insts ->
+  num_of ofZ qv = Some v ->
+  (forall ys, List.length ys = List.length ks -> exists y, interp (sort_keys PrimFloat.leb ks) ys v = Some y) ->
+  interp_at PrimFloat.leb PrimFloat.eqb ofZ interp mk assign insts q qv <> OErr.
+Proof. exact defined_F. Qed.
+
+(* without `no_nan ks` the statement is false of the model (a NaN key is never == itself) *)
+Theorem C20_defined_f64_nan_refuted :
+  exists (interp : list float -> list float -> float -> option float)
+         (insts : list (tree float)) (ks : list float) (F : list path) (qv : tree float) (v : float),
+    insts <> [] /\ keys_of Z2F ["t"%string] insts = Some ks /\ distinct PrimFloat.eqb ks /\ same_shape F insts /\
+    num_of Z2F qv = Some v /\
+    (forall ys, List.length ys = List.length ks -> exists y, interp (sort_keys PrimFloat.leb ks) ys v = Some y) /\
+    interp_at PrimFloat.leb PrimFloat.eqb Z2F interp TF true insts ["t"%string] qv = OErr.
+Proof. exact (ex_intro _ left_value_F defined_nan_refuted). Qed.
+
+(* "the abscissa of an instance" read as identity of the float instead of ==: false at NaN *)
+Theorem C20_known_point_f64_identity_nan_refuted :
+  exists (interp : list float -> list float -> float -> option float)
+         (insts : list (tree float)) (ks : list float) (i : nat) (inst : tree float) (k : float),
+    keys_of Z2F ["t"%string] insts = Some ks /\ distinct PrimFloat.eqb ks /\ nth_error insts i = Some inst /\
+    abscissa Z2F ["t"%string] inst = Some k /\
+    interp_at PrimFloat.leb PrimFloat.eqb Z2F interp TF true insts ["t"%string] (TF k) <> OSame i.
+Proof. exact (ex_intro _ left_value_F known_point_identity_nan_refuted). Qed.
+
+Theorem C20_order_free_f64 :
+  forall (ofZ : Z -> float) (interp : list float -> list float -> float -> option float) (mk : float -> tree float)
+         (assign : bool) (insts insts' : list (tree float)) (q : list string) (qv : tree float) (ks : list float) (F : list path),
+  Permutation insts insts' -> keys_of ofZ q insts = Some ks -> no_nan ks -> distinct PrimFloat.eqb ks -> same_shape F insts ->
+  match interp_at PrimFloat.leb PrimFloat.eqb ofZ interp mk assign insts q qv,
+        interp_at PrimFloat.leb PrimFloat.eqb ofZ interp mk assign insts' q qv with
+  | OSame i, OSame j => nth_error insts' j = nth_error insts i /\ nth_error insts i <> None
+  | ONew r, ONew r' => forall p, In p F -> get p r' = get p r
+  | OErr, OErr => True
+  | _, _ => False
+  end.
+Proof. exact order_free_F. Qed.
+
+(* what every in-quantifier query of a run decides by computation (Model.hyps_F, part of check_case) is exactly the
+   hypotheses of the _f64 theorems for the binary64 instance of the correspondence (ofZ = Z2F) *)
+Theorem C20_run_hypotheses_f64 :
+  forall (insts : list (tree float)) (q : list string) (qv : tree float),
+  hyps_F insts q qv = true ->
+  exists ks v, keys_of Z2F q insts = Some ks /\ num_of Z2F qv = Some v /\ no_nan ks /\ PrimFloat.is_nan v = false /\
+               distinct PrimFloat.eqb ks.
+Proof. exact hyps_F_sound. Qed.
 
 (* least squares (scipy.stats.linregress, exact arithmetic) followed by the code's own formula
    `slope * value + intercept` (Gen.li_eval_Q) reproduces data that are linear in the variable *)
@@ -178,3 +314,9 @@ Print Assumptions C20_dict_code.
 Print Assumptions C20_order_free.
 Print Assumptions C20_linear_exact.
 Print Assumptions C20_linear_trend_lsq.
+Print Assumptions C20_order_laws_f64.
+Print Assumptions C20_known_point_f64.
+Print Assumptions C20_per_leaf_f64.
+Print Assumptions C20_defined_f64.
+Print Assumptions C20_order_free_f64.
+Print Assumptions C20_run_hypotheses_f64.
